@@ -184,15 +184,16 @@ func setSize(frame []byte, v int32) []byte {
 
 type limits struct {
 	maxN        int
+	corrMaxN    int // the corr family (well-formed frames, reassigned correlation ids) goes one request deeper
 	thorough    bool
 	prefix2Full bool
 }
 
 func tierLimits(thorough bool) limits {
 	if thorough {
-		return limits{maxN: 3, thorough: true, prefix2Full: true}
+		return limits{maxN: 3, corrMaxN: 4, thorough: true, prefix2Full: true}
 	}
-	return limits{maxN: 2, thorough: false}
+	return limits{maxN: 2, corrMaxN: 3, thorough: false}
 }
 
 var bothVers = []int16{verPlain, verFlex}
@@ -206,9 +207,9 @@ func enumerate(l limits, yield func(c *Case)) {
 	allModes := []string{"simul", "stagger", "late", "after"}
 
 	// ---- family "corr": every frame well-formed; the correlation id of the
-	// frame at position k is drawn from {c_0..c_{n-1}, c_0-1, c_{n-1}+1, 0, -1}
+	// frame at position k is drawn from {c_0..c_{n-1}, c_{n-1}+1, 0, -1, 2^31-1}
 	// (in order, swapped, duplicated, wrong).
-	for n := 1; n <= l.maxN; n++ {
+	for n := 1; n <= l.corrMaxN; n++ {
 		var alphabet []int32
 		for s := 0; s < n; s++ {
 			alphabet = append(alphabet, corrOfSlot(s))
